@@ -18,7 +18,8 @@ Part 1.  "changes nothing else":
          necessity: kernel-checked examples where the outputs differ.
 Part 2.  "renders as documented", recogniser level, every text: `C16_legacy_definition` (`a {@k=v} b` — no `{` in `a`,
          no `}` in `k` and `v`, no `=` in `v`, no match in `b` — loses exactly the definition and calls the callback once
-         with `(k, v)`; `k` may contain `=`: the LAST `=` separates), `C16_legacy_sets_attribute` (on an element with text
+         with `(k, v)`; `k` may contain `=`: the LAST `=` separates), `C16_legacy_text_sublist`, `_pairs_wf`, `_match_shape`
+         (EVERY text: the result is a sublist of the text; every pair the callback sees is well formed), `C16_legacy_sets_attribute` (on an element with text
          `a {@k=v} b`: the text becomes `a  b`… exactly `a ++ b`, and the element gets `k = v` with line feeds as
          blanks); document level: kernel-checked instances on `convertL` (paragraph, heading, emphasis tail, image `alt`,
          line feed in a value).  These instances are tests of the model, labelled as such.
@@ -126,6 +127,18 @@ theorem C16_legacy_sets_attribute (n : Node) (a k v b : Str) (ha : '{' ∉ a) (h
     (hv2 : '=' ∉ v) (hb : quiet b = true) :
     handle n (a ++ '{' :: '@' :: (k ++ '=' :: v ++ '}' :: b)) = (n.setAttr k (nlToSp v), a ++ b) := by
   simp only [handle, scan_single a k v b ha hk hv hv2 hb, List.foldl_cons, List.foldl_nil]
+
+/-- **nothing is added or reordered, for EVERY text**: what `ATTR_RE.sub` returns is the text with pieces cut out -/
+theorem C16_legacy_text_sublist (s : Str) : List.Sublist (scan 0 s).1 s := scan_sublist s 0
+
+/-- **what the callback can be given, for EVERY text**: a key and a value without `}`, a value without `=` (so a
+    value can never close the brace group or carry a second assignment) -/
+theorem C16_legacy_pairs_wf (s : Str) (kv : Str × Str) (h : kv ∈ (scan 0 s).2) :
+    '}' ∉ kv.1 ∧ '}' ∉ kv.2 ∧ '=' ∉ kv.2 := scan_pairs_wf s 0 kv h
+
+/-- a match of `ATTR_RE` is literally `{@key=value}` -/
+theorem C16_legacy_match_shape (s k v rest : Str) (h : matchAt s = some (k, v, rest)) :
+    s = '{' :: '@' :: (k ++ '=' :: v ++ '}' :: rest) := (matchAt_spec s k v rest h).1
 
 -- document level, kernel-checked instances of the model (tests, not the unbounded claim)
 example : convertL true {} "para {@id=x} t".toList = .ok "<p id=\"x\">para  t</p>".toList := by decide +kernel
